@@ -686,82 +686,156 @@ struct Tcp
 	}
 
 	// ------------------------------------------------------------ UDP don't-fragment part of C20
+	// C20 runs it between two multi-homed nodes with a different path MTU for each (local, destination) address
+	// pair; the sending socket is re-bound from one local address to the other and alternates between the two
+	// destinations, so the MTU that counts is the one of the pair in use when the datagram is sent.
+	// C19 keeps one pair (the capture check names senders by their chain).
 	void udp_part()
 	{
 		int nops = 0;
 		for (auto const& o : plan.ops) if (o.op == "udp") ++nops;
 		if (nops == 0) return;
-		udp::socket sa(*nodeA), sb(*nodeB);
-		sa.open(udp::v4()); sb.open(udp::v4());
-		sa.bind(udp::endpoint(addrA, 6000)); sb.bind(udp::endpoint(addrB, 6001));
-		sa.non_blocking(true); sb.non_blocking(true);
-		struct Sent { int64_t size; uint64_t hash; bool expect; };
-		std::vector<Sent> expected;
-		std::vector<std::pair<int64_t, uint64_t>> got;
-		std::vector<uint8_t> rbuf(70000);
-		udp::endpoint from;
-		std::function<void()> recv = [&]() {
-			sb.async_receive_from(asio::buffer(rbuf), from, [&](error_code const& ec, std::size_t n) {
+		bool const multi = c20;
+		ip::address U[2] = { addrA, addrA }, V[2] = { addrB, addrB };
+		int m[2][2] = { { mtuAB, mtuAB }, { mtuAB, mtuAB } };
+		std::unique_ptr<asio::io_context> nodeU, nodeV;
+		if (multi)
+		{
+			U[0] = ip::make_address_v4("10.0.2.1"); U[1] = ip::make_address_v4("10.0.2.2");
+			V[0] = ip::make_address_v4("10.0.3.1"); V[1] = ip::make_address_v4("10.0.3.2");
+			auto clampm = [](int64_t v) { return int(std::max<int64_t>(64, std::min<int64_t>(9000, v))); };
+			m[0][1] = clampm(plan.c("umtu1", int64_t(mtuAB) * 2));
+			m[1][0] = clampm(plan.c("umtu2", mtuAB / 2));
+			m[1][1] = clampm(plan.c("umtu3", mtuAB + 100));
+			for (int i = 0; i < 2; ++i) for (int j = 0; j < 2; ++j) net.set_mtu(U[i], V[j], m[i][j]);
+			nodeU.reset(new asio::io_context(*sim, std::vector<ip::address>{U[0], U[1]}));
+			nodeV.reset(new asio::io_context(*sim, std::vector<ip::address>{V[0], V[1]}));
+		}
+		asio::io_context& ctxS = multi ? *nodeU : *nodeA;
+		asio::io_context& ctxR = multi ? *nodeV : *nodeB;
+		int const ndst = multi ? 2 : 1;
+		udp::socket sa(ctxS);
+		std::unique_ptr<udp::socket> sb[2];
+		sa.open(udp::v4());
+		sa.bind(udp::endpoint(U[0], 6000));
+		sa.non_blocking(true);
+		struct Sent { int64_t size; uint64_t hash; bool expect; int mtu; };
+		std::vector<Sent> expected[2];
+		std::vector<std::pair<int64_t, uint64_t>> got[2];
+		std::vector<uint8_t> rbuf[2];
+		udp::endpoint from[2];
+		std::function<void(int)> recv = [&](int d) {
+			sb[d]->async_receive_from(asio::buffer(rbuf[d]), from[d], [&, d](error_code const& ec, std::size_t n) {
 				++ctx.handlers;
 				if (ec) return;
-				got.emplace_back(int64_t(n), hash_bytes(rbuf.data(), n));
-				recv();
+				got[d].emplace_back(int64_t(n), hash_bytes(rbuf[d].data(), n));
+				recv(d);
 			});
 		};
-		recv();
+		for (int d = 0; d < ndst; ++d)
+		{
+			sb[d].reset(new udp::socket(ctxR));
+			sb[d]->open(udp::v4());
+			sb[d]->bind(udp::endpoint(V[d], 6001));
+			sb[d]->non_blocking(true);
+			rbuf[d].resize(70000);
+			recv(d);
+		}
 		int state = 0; // don't-fragment option: 0 never touched, 1 set, 2 cleared
-		asio::high_resolution_timer t(*nodeA);
+		int cur = 0;   // local address the sender is bound to
+		asio::high_resolution_timer t(ctxS);
 		size_t idx = 0;
 		std::vector<Op> uops;
 		for (auto const& o : plan.ops) if (o.op == "udp") uops.push_back(o);
+		using df_opt = boost::asio::detail::socket_option::integer<IPPROTO_IP, IP_MTU_DISCOVER>;
 		std::function<void()> next = [&]() {
 			if (idx >= uops.size()) return;
 			Op const& o = uops[idx++];
 			int const opt = int(uint64_t(o.a) % 4);
+			int const dst = multi ? int(uint64_t(o.d) % 2) : 0;
 			error_code ec;
-			if (opt == 1) { sa.set_option(boost::asio::detail::socket_option::integer<IPPROTO_IP, IP_MTU_DISCOVER>(IP_PMTUDISC_DO), ec); state = 1; }
-			else if (opt == 2) { sa.set_option(boost::asio::detail::socket_option::integer<IPPROTO_IP, IP_MTU_DISCOVER>(IP_PMTUDISC_DONT), ec); state = 2; }
+			if (multi && (uint64_t(o.d) / 2) % 3 == 1)
+			{
+				// the same socket object moves to the node's other address; the option is stated again afterwards
+				cur = 1 - cur;
+				sa.close(ec);
+				sa.open(udp::v4(), ec);
+				sa.bind(udp::endpoint(U[cur], 6000), ec);
+				if (ec) { fail("mtu.udp.rebind", "re-binding the sender to its other address failed: " + ec.message()); return; }
+				sa.non_blocking(true);
+				sa.set_option(df_opt(state == 1 ? IP_PMTUDISC_DO : IP_PMTUDISC_DONT), ec);
+				if (state == 0) state = 2;
+				ctx.hit("udp_sender_rebound");
+			}
+			if (opt == 1) { sa.set_option(df_opt(IP_PMTUDISC_DO), ec); state = 1; }
+			else if (opt == 2) { sa.set_option(df_opt(IP_PMTUDISC_DONT), ec); state = 2; }
 			else if (opt == 3) { sa.set_option(boost::asio::detail::socket_option::boolean<IPPROTO_IP, IP_DONTFRAGMENT>(true), ec); state = 1; }
-			int64_t size = mtuAB + (o.b % 5) - 2; // MTU-2 .. MTU+2
+			int const mtu = m[cur][dst];
+			int64_t size = mtu + (o.b % 5) - 2; // MTU-2 .. MTU+2
 			if ((o.c % 4) == 1) size = (c19 ? 65507 : 65535) - (o.b % 3); // C19: sizes that fit one IPv4 packet
 			if ((o.c % 4) == 2) size = std::max<int64_t>(1, o.b % 3000);
+			if ((o.c % 4) == 3 && multi) size = m[(o.b / 5) % 2][(o.b / 10) % 2] + (o.b % 5) - 2; // around another pair's MTU
 			if (size < 1) size = 1;
 			if (size > 65535) size = 65535;
 			std::vector<uint8_t> data(static_cast<size_t>(size));
 			for (size_t i = 0; i < data.size(); ++i) data[i] = stream_byte(0xdf00 + idx, int64_t(i));
-			std::size_t const n = sa.send_to(asio::buffer(data), udp::endpoint(addrB, 6001), 0, ec);
-			ctx.tr.rec("udp_send", {state, ec.value()}, {size, int64_t(n)});
+			std::size_t const n = sa.send_to(asio::buffer(data), udp::endpoint(V[dst], 6001), 0, ec);
+			ctx.tr.rec("udp_send", {state, ec.value(), cur, dst}, {size, int64_t(n)});
 			if (ec == boost::asio::error::would_block) { /* not sent */ }
 			else if (ec) fail("mtu.udp.send_error", "send_to failed: " + ec.message());
 			else
 			{
 				if (int64_t(n) != size) fail("mtu.udp.send_count", "send_to reported " + std::to_string(n) + " for a datagram of " + std::to_string(size));
-				bool const expect = !(state == 1 && size > mtuAB);
-				expected.push_back({size, hash_bytes(data.data(), data.size()), expect});
+				bool const expect = !(state == 1 && size > mtu);
+				expected[dst].push_back({size, hash_bytes(data.data(), data.size()), expect, mtu});
 				if (!expect) ctx.hit("udp_df_discard");
-				if (state == 1 && size <= mtuAB) ctx.hit("udp_df_within_mtu");
-				if (state != 1 && size > mtuAB) ctx.hit("udp_over_mtu_fragmentable");
+				if (state == 1 && size <= mtu) ctx.hit("udp_df_within_mtu");
+				if (state != 1 && size > mtu) ctx.hit("udp_over_mtu_fragmentable");
+				if (multi && (cur != 0 || dst != 0)) ctx.hit("udp_other_address_pair");
 			}
 			t.expires_after(duration(std::max<int64_t>(1000000, o.at)));
 			t.async_wait([&](error_code const& tec) { if (!tec) next(); });
 		};
 		next();
 		sim->run();
-		if (!c20) { error_code cec; sb.close(cec); sa.close(cec); return; }
-		// loss-free route for this part: exactly the expected datagrams arrive, whole and in order
-		size_t gi = 0;
-		for (auto const& e : expected)
+		error_code cec;
+		if (c20)
 		{
-			if (!e.expect) continue;
-			if (gi >= got.size()) { fail("mtu.udp.missing", "a datagram of " + std::to_string(e.size) + " bytes that should be delivered was not"); return; }
-			if (got[gi].first != e.size || got[gi].second != e.hash)
-			{ fail("mtu.udp.mismatch", "delivered datagram differs from the expected one (size " + std::to_string(got[gi].first) + " vs " + std::to_string(e.size) + ")"); return; }
-			++gi;
+			// loss-free route for this part: exactly the expected datagrams arrive, whole and in order
+			for (int d = 0; d < ndst && !ctx.violated; ++d)
+			{
+				size_t gi = 0;
+				bool bad = false;
+				for (auto const& e : expected[d])
+				{
+					if (!e.expect) continue;
+					if (gi >= got[d].size())
+					{
+						fail("mtu.udp.missing", "a datagram of " + std::to_string(e.size) + " bytes (path MTU " + std::to_string(e.mtu)
+							+ ") that should be delivered was not");
+						bad = true; break;
+					}
+					if (got[d][gi].first != e.size || got[d][gi].second != e.hash)
+					{
+						// tell a missing expected datagram from a delivered one that should have been discarded
+						bool unexpected = false;
+						for (auto const& x : expected[d]) if (!x.expect && x.size == got[d][gi].first && x.hash == got[d][gi].second) unexpected = true;
+						if (unexpected)
+							fail("mtu.udp.df_not_discarded", "a datagram of " + std::to_string(got[d][gi].first)
+								+ " bytes, larger than the path MTU of the address pair it was sent on, was delivered although don't-fragment was set");
+						else
+							fail("mtu.udp.mismatch", "delivered datagram differs from the expected one (size " + std::to_string(got[d][gi].first)
+								+ " vs " + std::to_string(e.size) + ")");
+						bad = true; break;
+					}
+					++gi;
+				}
+				if (!bad && gi != got[d].size())
+					fail("mtu.udp.df_not_discarded", "a datagram larger than the path MTU was delivered although don't-fragment was set");
+			}
 		}
-		if (gi != got.size())
-			fail("mtu.udp.df_not_discarded", "a datagram larger than the path MTU was delivered although don't-fragment was set");
-		error_code ec;
-		sb.close(ec); sa.close(ec);
+		for (int d = 0; d < ndst; ++d) { sb[d]->close(cec); sb[d].reset(); }
+		sa.close(cec);
 	}
 
 	// ------------------------------------------------------------ main
@@ -1023,6 +1097,13 @@ struct TcpEngine : Engine
 		if (c20) { mtu = int(rng.pick(std::vector<int64_t>{64, 100, 576, 1000, 1474, 1475, 1476, 1500, 4000, 9000})); if (rng.chance(0.3)) mtu = int(rng.range(64, 9000)); }
 		else if (rng.chance(0.25)) mtu = int(rng.pick(std::vector<int64_t>{576, 1000, 1475, 1500, 4000}));
 		p.cfg["mtu"] = mtu;
+		if (c20)
+		{
+			// path MTUs of the other three address pairs of the UDP part
+			std::vector<int64_t> const pool{64, 100, 300, 576, 1000, 1200, 1475, 1500, 4000, 9000};
+			for (char const* k : {"umtu1", "umtu2", "umtu3"})
+				p.cfg[k] = rng.chance(0.3) ? int64_t(rng.range(64, 9000)) : rng.pick(pool);
+		}
 		p.cfg["accept_variant"] = int64_t(rng.below(3));
 		bool const finite = (c06 && rng.chance(0.7)) || (c05 && rng.chance(0.35));
 		int nconn = 1;
@@ -1162,6 +1243,7 @@ struct TcpEngine : Engine
 			for (int k = 0; k < n; ++k)
 			{
 				Op u; u.op = "udp"; u.a = int64_t(rng.below(4)); u.b = int64_t(rng.below(1000)); u.c = int64_t(rng.below(4)); u.at = rng.logu(1000000, 100000000);
+				if (c20) u.d = int64_t(rng.below(6));
 				p.ops.push_back(u);
 			}
 		}
